@@ -409,23 +409,51 @@ def rule_substate(facts, rep):
 def rule_emit(facts, rep):
     d = Dispatch(facts)
     b = d.b
-    last2 = [hir.simp(s) for s in d.top[-2:]]
-    ok_if = False
-    if last2[0].get("k") == "if" and "e" not in last2[0]:
-        parts = hir.split_and(last2[0]["c"])
-        txt = sorted(hirpp.expr(p) for p in parts)
-        ne = [p for p in parts if hir.simp(p).get("k") == "bin" and hir.simp(p)["op"] == "Ne"
-              and {hir.place_str(hir.simp(p)["l"]), hir.place_str(hir.simp(p)["r"])} == {"style", "self.style"}]
-        pend = [p for p in parts if hir.simp(p).get("k") == "un" and hir.simp(p)["op"] == "Not"
-                and hir.is_call(hir.simp(hir.simp(p)["e"]), "String::is_empty") and hir.place_str(hir.simp(hir.simp(p)["e"])["args"][0]) == "self.printable"]
-        st = hir.stmts_of(last2[0]["t"])
-        ok_body = (len(st) == 1 and st[0].get("k") == "assign" and hir.place_str(st[0]["l"]) == "self.ready"
-                   and hir.simp(st[0]["r"]).get("ctor", "").endswith("Option::Some") and hir.place_str(hir.simp(st[0]["r"])["args"][0]) == "self.style")
-        ok_if = len(parts) == 2 and len(ne) == 1 and len(pend) == 1 and ok_body
-    rep.check(ok_if, "emit", b["path"], "run-ready-iff-style-changed-and-text-pending",
-              "self.ready = Some(self.style /* the OLD style */) exactly when style != self.style && !self.printable.is_empty()", loc(b, last2[0]))
-    ok_last = last2[1].get("k") == "assign" and hir.place_str(last2[1]["l"]) == "self.style" and hir.is_local(last2[1]["r"], "style")
-    rep.check(ok_last, "emit", b["path"], "new-style-stored-last", "self.style = style is the last statement", loc(b, last2[1]))
+    # the epilogue (everything after the parameter loop) is decided by abstract evaluation over old style / new style /
+    # pending text: afterwards self.style is the new style, and self.ready = Some(OLD style) exactly when the style changed
+    # and text is pending — whether the old style is read before the store or saved by mem::replace
+    import abseval
+    loops = [i for i, s in enumerate(d.top) if any(x.get("k") == "loop" for x in hir.walk(s))]
+    if not loops:
+        raise Unrecognised("csi_dispatch: parameter loop not found")
+    tail = d.top[loops[-1] + 1:]
+    style_local = [n for n in d.top[:loops[-1]] if n.get("k") == "let" and n["pat"].get("k") == "pbind" and hir.place_str(n.get("init")) == "self.style"]
+    if len(style_local) != 1:
+        raise Unrecognised("csi_dispatch: `let mut style = self.style` not found")
+    sname = style_local[0]["pat"]["name"]
+    bad = []
+    n_cases = 0
+
+    def run(choices):
+        ev = abseval.Evaluator(facts, "anstream", {"alloc::string::String::is_empty": lambda a: ("bool", ev.oracle(("printable", "empty")))})
+        ev.choices = choices
+        env = abseval.Env()
+        env[sname] = ("sym", "new")
+        env["self.style"] = ("sym", "old")
+        env["self.ready"] = ("none",)
+        env["self.printable"] = ("sym", "text")
+        try:
+            ev.ev({"k": "block", "stmts": list(tail)}, env)
+        except abseval.Return:
+            pass
+        return env["self.style"], env["self.ready"], list(ev.stores)
+    for choices, (fin_style, fin_ready, stores) in abseval.explore(run):
+        n_cases += 1
+        same = choices.get(("new", ("sym", "old")), choices.get(("old", ("sym", "new"))))
+        empty = choices.get(("printable", "empty"))
+        want_ready = ("some", ("sym", "old")) if (same is False and empty is False) else ("none",)
+        if same is None or (same is False and empty is None):
+            bad.append(f"the decision does not depend on both `style != self.style` and `!self.printable.is_empty()` (case {choices})")
+        if fin_ready != want_ready:
+            bad.append(f"style {'unchanged' if same else 'changed'}, text {'none' if empty else 'pending'}: ready = {fin_ready}, expected {want_ready}")
+        if fin_style != ("sym", "new"):
+            bad.append(f"self.style ends as {fin_style}, expected the new style")
+    rep.count(n_cases)
+    b_ready = [m for m in bad if "ready" in m or "decision" in m]
+    rep.check(not b_ready and n_cases >= 3, "emit", b["path"], "run-ready-iff-style-changed-and-text-pending",
+              f"self.ready = Some(self.style /* the OLD style */) exactly when style != self.style && !self.printable.is_empty(): {b_ready[:2]}", loc(b))
+    b_style = [m for m in bad if "self.style ends" in m]
+    rep.check(not b_style, "emit", b["path"], "new-style-stored-last", f"self.style = style at the end of every dispatch: {b_style[:1]}", loc(b))
     # print / execute only append
     p = facts.body("anstream", FN + "print")
     st = hir.stmts_of(p["hir"])
